@@ -433,6 +433,126 @@ theorem heldBy_true {ctx : Ctx} {r : Request} {name : String} {restr : Option Qu
       · obtain ⟨d, hd, rest'⟩ := ih h
         exact ⟨d, List.mem_cons_of_mem _ hd, rest'⟩
 
+/-- `check_credential_subjects`, one string/number entry -/
+theorem subjectsOk_value {p : Presentation} (h : subjectsOk p = true) {c : Cred} (hc : c ∈ p.creds)
+    {k : String} {v : SubjVal} (hkv : (k, v) ∈ c.subject) (hnb : ∀ b, v ≠ .bool b) :
+    revealedValueOk k c.sub (Encode.encode v.toStr) = true := by
+  unfold subjectsOk at h
+  simp only [List.all_eq_true] at h
+  have := h c hc (k, v) hkv
+  cases v with
+  | str s => exact this
+  | num n => exact this
+  | bool b => exact absurd rfl (hnb b)
+
+/-- `check_credential_subjects`, one boolean marker -/
+theorem subjectsOk_marker {p : Presentation} (h : subjectsOk p = true) {c : Cred} (hc : c ∈ p.creds)
+    {k : String} {b : Bool} (hkv : (k, SubjVal.bool b) ∈ c.subject) :
+    ∃ pr ∈ c.sub.preds, Names.commonView pr.attr = Names.commonView k := by
+  unfold subjectsOk at h
+  simp only [List.all_eq_true] at h
+  have := h c hc (k, .bool b) hkv
+  simpa using this
+
+theorem lookup_some_mem_keys {α β : Type} [BEq α] [LawfulBEq α] {l : List (α × β)} {a : α} {b : β}
+    (h : l.lookup a = some b) : a ∈ l.map Prod.fst := by
+  induction l with
+  | nil => simp at h
+  | cons x rest ih =>
+    obtain ⟨k, v⟩ := x
+    rw [List.lookup_cons] at h
+    by_cases hk : a == k
+    · simp only [hk] at h
+      have : a = k := by simpa using hk
+      simp [this]
+    · simp only [hk] at h
+      simp [ih h]
+
+theorem lookup_some_mem {α β : Type} [BEq α] [LawfulBEq α] {l : List (α × β)} {a : α} {b : β}
+    (h : l.lookup a = some b) : (a, b) ∈ l := by
+  induction l with
+  | nil => simp at h
+  | cons x rest ih =>
+    obtain ⟨k, v⟩ := x
+    rw [List.lookup_cons] at h
+    by_cases hk : a == k
+    · simp only [hk, Option.some.injEq] at h
+      have : a = k := by simpa using hk
+      simp [this, h]
+    · simp only [hk] at h
+      simp [ih h]
+
+/-- a predicate that holds of signed values is about a signed attribute -/
+theorem predHolds_mem_keys {attrs : List (String × String)} {pr : Pred}
+    (h : predHolds attrs pr = true) : pr.attr ∈ attrs.map Prod.fst := by
+  unfold predHolds at h
+  split at h
+  · cases h
+  · rename_i enc he
+    exact lookup_some_mem_keys he
+
+/-- the names inside an accepted sub-proof are in normal form -/
+theorem paramsConsistent_iff {s : SymSub} :
+    paramsConsistent s = true ↔
+      (∀ kv ∈ s.revealed, Names.commonView kv.1 = kv.1) ∧
+      (∀ pr ∈ s.preds, Names.commonView pr.attr = pr.attr) := by
+  simp [paramsConsistent]
+
+/-- `check_requested_predicate` succeeded ⇔ some credential carries the marker, its sub-proof the
+very predicate, and the conditions hold -/
+theorem requestedPredicateOk_iff {ctx : Ctx} {r : Request} {p : Presentation} {q : PredInfo} :
+    requestedPredicateOk ctx r p q = true ↔
+      ∃ c ∈ p.creds, ∃ a, getPredicate c q.name = some a ∧
+        (∃ pr ∈ c.sub.preds, Names.commonView pr.attr = Names.commonView a ∧ pr.ty = q.ty ∧
+          pr.value = q.value) ∧
+        conditionsOk ctx r c q.restrictions q.nonRevoked = true := by
+  unfold requestedPredicateOk
+  rw [List.any_eq_true]
+  constructor
+  · rintro ⟨c, hc, hb⟩
+    refine ⟨c, hc, ?_⟩
+    split at hb
+    · cases hb
+    · rename_i a ha
+      simp only [Bool.and_eq_true, List.any_eq_true, beq_iff_eq] at hb
+      obtain ⟨⟨pr, hpr, ⟨h1, h2⟩, h3⟩, hcond⟩ := hb
+      exact ⟨a, ha, ⟨pr, hpr, h1, h2, h3⟩, hcond⟩
+  · rintro ⟨c, hc, a, ha, ⟨pr, hpr, h1, h2, h3⟩, hcond⟩
+    refine ⟨c, hc, ?_⟩
+    rw [ha]
+    simp only [Bool.and_eq_true, List.any_eq_true, beq_iff_eq]
+    exact ⟨⟨pr, hpr, ⟨h1, h2⟩, h3⟩, hcond⟩
+
+/-- first loop of `check_requested_attribute`, one credential -/
+theorem revealedBy_iff {ctx : Ctx} {r : Request} {name : String} {restr : Option Query}
+    {loc : Option Ivl} {c : Cred} :
+    revealedBy ctx r name restr loc c = true ↔
+      ∃ k v, getAttribute c name = some (k, v) ∧
+        revealedValueOk k c.sub (Encode.encode v.toStr) = true ∧
+        conditionsOk ctx r c restr loc = true := by
+  unfold revealedBy
+  split
+  · rename_i hn; simp [hn]
+  · rename_i a v ha
+    simp only [ha, Option.some.injEq, Prod.mk.injEq, Bool.and_eq_true]
+    constructor
+    · rintro ⟨h1, h2⟩
+      exact ⟨a, v, ⟨rfl, rfl⟩, h1, h2⟩
+    · rintro ⟨k, w, ⟨rfl, rfl⟩, h1, h2⟩
+      exact ⟨h1, h2⟩
+
+/-- `check_requested_attribute` succeeded: by the first loop or by the second -/
+theorem requestedAttributeOk_cases {ctx : Ctx} {r : Request} {p : Presentation} {name : String}
+    {restr : Option Query} {loc : Option Ivl}
+    (h : requestedAttributeOk ctx r p name restr loc = true) :
+    (∃ c ∈ p.creds, revealedBy ctx r name restr loc c = true) ∨
+      heldBy ctx r name restr loc p.creds = some true := by
+  unfold requestedAttributeOk at h
+  split at h
+  · rename_i hany
+    exact Or.inl (List.any_eq_true.mp hany)
+  · exact Or.inr (by simpa using h)
+
 /-! ## a small accepted presentation (non-vacuity witness) -/
 
 namespace Demo
